@@ -527,4 +527,28 @@ def Machine.endFailExact (M : Machine) (o : SemOpts) : Bool :=
       | .ret code st _ => code != "FAIL" || st == M.failTarget
       | _ => true
 
+/-- the index names a state of the table -/
+def Machine.inTable (M : Machine) (s : Int) : Bool := decide (0 ≤ s) && decide (s.toNat < M.states.size)
+
+/-- Per-machine check behind "FAIL is final" (C10): from every state of the table, on every symbol
+    (end-of-input included), a call that reports FAIL leaves exactly `failTarget` behind, and every
+    other outcome leaves a state of the table. -/
+def Machine.failClosed (M : Machine) (o : SemOpts) : Bool :=
+  (List.range M.states.size).all fun s =>
+    (List.range nSym).all fun x =>
+      (M.call o s x).paths.all fun p =>
+        match p.2 with
+        | .next st _ => M.inTable st
+        | .ret code st _ => if code == "FAIL" then st == M.failTarget else M.inTable st
+        | .yielded _ st _ => M.inTable st
+
+/-- no call on a data byte, from any state of the table, reports FAIL -/
+def Machine.neverFailsOnBytes (M : Machine) (o : SemOpts) : Bool :=
+  (List.range M.states.size).all fun s =>
+    (List.range 256).all fun x =>
+      (M.call o s x).paths.all fun p =>
+        match p.2 with
+        | .ret code _ _ => code != "FAIL"
+        | _ => true
+
 end Nmfu
